@@ -661,8 +661,8 @@ func c19Malformed(c *Ctx) {
 // c19SetupErrors: over-long short names, defaults on booleans, duplicate names (also created by namespaces).
 func c19SetupErrors(c *Ctx) {
 	r := c.R
-	kind := []string{"short-too-long-ascii", "short-too-long-multibyte", "default-on-bool", "dup-short", "dup-long", "dup-long-via-namespace", "dup-in-nested-group", "dup-short-multibyte", "no-duplicate-across-commands"}[(c.K/5)%9]
-	via := []string{"NewParser", "AddGroup", "AddCommand"}[(c.K/45)%3]
+	kind := []string{"short-too-long-ascii", "short-too-long-multibyte", "default-on-bool", "dup-short", "dup-long", "dup-long-via-namespace", "dup-in-nested-group", "dup-short-multibyte", "no-duplicate-across-commands", "dup-random-nesting", "dup-random-nesting", "no-dup-random-nesting"}[(c.K/5)%12]
+	via := []string{"NewParser", "AddGroup", "AddCommand"}[(c.K/60)%3]
 	str := reflect.TypeOf("")
 	mk := func(fs ...reflect.StructField) reflect.Type { return reflect.StructOf(fs) }
 	fld := func(name string, t reflect.Type, tag string) reflect.StructField {
@@ -700,6 +700,65 @@ func c19SetupErrors(c *Ctx) {
 		inner := mk(fld("G2", inner2, `group:"G2"`), fld("X", str, `long:"x"`))
 		rt = mk(fld("B", str, `short:"q" long:"bee"`), fld("G", inner, `group:"G"`))
 		want = flags.ErrDuplicatedFlag
+	case "dup-random-nesting", "no-dup-random-nesting":
+		// two options in different (nested, possibly namespaced) groups of one declaration whose short names or
+		// namespaced long names collide - or, for the negative control, differ only in their namespaces
+		depth := r.Range(1, 3)
+		var chain []string
+		for i := 0; i < depth; i++ {
+			if r.Chance(2, 3) {
+				chain = append(chain, fmt.Sprintf("n%d", r.Intn(50))+[]string{"", "é", "-x"}[r.Intn(3)])
+			} else {
+				chain = append(chain, "")
+			}
+		}
+		var ns []string
+		for _, x := range chain {
+			if x != "" {
+				ns = append(ns, x)
+			}
+		}
+		base := fmt.Sprintf("name%d", r.Intn(100))
+		useShort := r.Chance(1, 3)
+		innerTag, outerTag := "", ""
+		if kind == "dup-random-nesting" {
+			if useShort {
+				sr := string(c19Shorts[r.Intn(len(c19Shorts))])
+				innerTag, outerTag = `short:"`+sr+`" long:"in`+base+`"`, `short:"`+sr+`" long:"out`+base+`"`
+			} else {
+				innerTag = `long:"` + base + `"`
+				outerTag = `long:"` + strings.Join(append(append([]string{}, ns...), base), ".") + `"`
+			}
+			want = flags.ErrDuplicatedFlag
+		} else {
+			// same long name, different namespaces: not a duplicate
+			if len(ns) == 0 {
+				ns = []string{"only"}
+				chain[0] = "only"
+			}
+			innerTag, outerTag = `long:"`+base+`"`, `long:"`+base+`"`
+			wantErr = false
+		}
+		cur := mk(fld("Inner", str, innerTag), fld("InnerPad", reflect.TypeOf(0), `long:"pad`+fmt.Sprint(depth)+`"`))
+		for i := depth - 1; i >= 0; i-- {
+			tag := fmt.Sprintf(`group:"G%d"`, i)
+			if chain[i] != "" {
+				tag += ` namespace:"` + chain[i] + `"`
+			}
+			fields := []reflect.StructField{fld(fmt.Sprintf("Sub%d", i), cur, tag)}
+			if r.Bool() {
+				fields = append([]reflect.StructField{fld(fmt.Sprintf("Pad%d", i), str, fmt.Sprintf(`long:"lvl%dpad"`, i))}, fields...)
+			}
+			if i == 0 {
+				if r.Bool() {
+					fields = append(fields, fld("Outer", str, outerTag))
+				} else {
+					fields = append([]reflect.StructField{fld("Outer", str, outerTag)}, fields...)
+				}
+			}
+			cur = mk(fields...)
+		}
+		rt = cur
 	case "no-duplicate-across-commands":
 		cmd := mk(fld("A", str, `short:"v" long:"verbose"`))
 		rt = mk(fld("B", str, `short:"v" long:"verbose"`), fld("C", cmd, `command:"sub"`))
@@ -734,17 +793,21 @@ func c19SetupErrors(c *Ctx) {
 	fe, _ := err.(*flags.Error)
 	if !wantErr {
 		if fe != nil && fe.Type == flags.ErrDuplicatedFlag {
-			c.Violate("spurious-duplicate", "names shared between a command and its parent were rejected: %v", err)
+			c.Violate("spurious-duplicate:"+kind, "distinct names (a command and its parent, or different namespaces) were rejected as duplicates: %v", err)
 			return
 		}
-		c.Held("setup/"+kind+"/"+via, "")
+		if err != nil && fe == nil {
+			c.Violate("setup:"+kind+":unexpected-error", "unexpected error %v", err)
+			return
+		}
+		c.Held("setup/"+kind+"/"+via, fmt.Sprint(rt.NumField(), rt.String()[:minInt(len(rt.String()), 80)]))
 		return
 	}
 	if fe == nil || fe.Type != want {
 		c.Violate("setup:"+kind+":"+via, "%s via %s: got %s (%v), want %s", kind, via, errTypeName(err), err, want)
 		return
 	}
-	c.Held("setup/"+kind+"/"+via, "")
+	c.Held("setup/"+kind+"/"+via, fmt.Sprint(rt.NumField(), rt.String()[:minInt(len(rt.String()), 80)]))
 }
 
 func init() {
